@@ -55,7 +55,7 @@ class QWorld:
 			for copy in range(rng.choice([1, 1, 2, 3])):
 				stem = (stems[(qi + copy) % len(stems)] if rng.random() < 0.6 else 'sample') + f'_{qi}_{copy}'
 				ext = rng.choice(['.fasta', '.fa', '.fna', '.fasta.gz', '.fa.gz', '.gz', '', '.txt', '.fasta.fasta'])
-				gz = ext.endswith('.gz')
+				gz = ext.endswith('.gz') and rng.choice([True, True, 'multi'])     # 'multi': several gzip members (bgzip / cat a.gz b.gz)
 				sub = rng.random() < 0.25
 				name = stem + ext
 				p = (self.qdir / 'sub' / name) if sub else (self.qdir / name)
